@@ -88,8 +88,8 @@ Print Assumptions C15_schwefel_every_dimension.
 
 (* Perm and "one finite float" (open finding F10): on the box [-n, n]^n the real value of Perm is representable in
    binary64 (at most the largest finite double, (2^53 - 1) 2^971) in every dimension n <= 80, and is not at the corner
-   (81, .., 81) of the 81-dimensional box: beyond dimension 80 no float implementation can return a finite cost
-   everywhere on the box *)
+   (81, .., 81) of the 81-dimensional box: in dimension 81 no float implementation can return a finite cost
+   everywhere on the box (dimensions >= 82 are not part of the statement) *)
 Theorem C15_perm_binary64_range :
   (forall n x, (1 <= n <= 80)%nat -> in_boxes (b_box perm_b n) x -> 0 <= perm x <= max_binary64) /\
   (exists x, in_boxes (b_box perm_b 81) x /\ max_binary64 < perm x).
